@@ -1,11 +1,12 @@
 (** Radix/Tree.v — stage 2: the compressed radix tree of internal/x/radixtree/tree.go,
     function by function ([addNode], [splitCommonPrefix], [Add], [findNode], [Find]),
-    faithful to the code AS IT IS; the candidate repairs are switches:
+    with one switch per repaired finding ([true] = the code as it is now, [false] =
+    the pinned tree before that fix: commit):
 
-      fx1  fixes/C02-F1.diff: a failed free-wildcard child answers with ITS OWN flag
-      fx2  C03-F2: the free-wildcard child's values are tried with its own key names
-           and the captures including the rest of the path
-      fx5  C03-F5: a dead end gives back the captures it was given (not nil)
+      fx1  C02-F1 (e897fef): a failed free-wildcard child answers with ITS OWN flag
+      fx2  C03-F2 (88da16a): the free-wildcard child's values are tried with its own key
+           names and the captures including the rest of the path
+      fx5  C03-F5 (16cf34b): a dead end gives back the captures it was given (not nil)
 
     Static-child priorities are not modelled (static indices are unique, the order of
     the children is irrelevant for every function here).  [Delete] is not modelled.
@@ -308,6 +309,7 @@ Fixpoint wfb (n : tree) : bool :=
   && match t_wild n with Some w => wfb w | None => true end
   && match t_catch n with
      | Some c => is_leaf c && negb (is_nil (t_vals c))
+                 && str_eqb (last_key (t_keys c)) (t_path c)   (* the free wildcard's name is its last key name *)
                  && (negb (is_nil (t_vals n)) || t_bt n)   (* a node without values that has children allows backtracking *)
      | None => true
      end.
